@@ -200,9 +200,11 @@ def magnitudes_bounded(ast):
     try:
         for sub in subtrees(ast):
             for ch in U.choices(sub):
-                m = float(U.evaluate(sub, ch).mag)
+                exact = U.evaluate(sub, ch).mag
+                m = float(exact)
+                # (exact != 0: a tiny rational converts to 0.0 silently)
                 if not math.isfinite(m) or abs(m) > 1e250 or \
-                        (m != 0 and abs(m) < 1e-250):
+                        (exact != 0 and abs(m) < 1e-250):
                     return False
     except (OverflowError, ZeroDivisionError):
         return False
@@ -484,8 +486,29 @@ def replay(ctx, case):
         check_conversion(ctx, ctx.rng, case['from'], case['to'], case['x'])
     elif 'ast' in case:
         def tup(a):
-            return tuple(tup(x) if isinstance(x, list) else x for x in a)
-        check_valid(ctx, tup(case['ast']), case['text'], case['kind'])
+            import ast as _ast
+            out = []
+            for x in a:
+                if isinstance(x, list):
+                    out.append(tup(x))
+                elif isinstance(x, str) and x[:1] in '("\'' and x[-1:] in \
+                        ')"\'' and len(x) > 1:
+                    # older replay files abbreviated deep sub-trees as repr()
+                    try:
+                        out.append(_ast.literal_eval(x))
+                    except Exception:
+                        out.append(x)
+                else:
+                    out.append(x)
+            return tuple(out)
+        try:
+            ast = tup(case['ast'])
+            U.evaluate(ast)
+        except Exception:
+            # deeply nested trees are abbreviated in the replay file: the
+            # text is the case, the tree is re-derived from it
+            ast = parse_own(case['text'])
+        check_valid(ctx, ast, case['text'], case['kind'])
     else:
         check_malformed(ctx, case['text'], case['kind'])
 
